@@ -62,6 +62,15 @@ def _list_items(cp):
   orphan_sections = cp.orphan_sections
   raw_items = _parse_raw(cp, orphan_sections)
   items.extend(raw_items)
+
+  # [Table-Form:NAME] sections are neither in parsed_sections nor orphans, list them too
+  raw_cp = cp.raw_config_parser
+  table_form_sections = [s for s in raw_cp.sections() if s.startswith("Table-Form:")]
+  items.extend(_parse_raw(cp, table_form_sections))
+
+  # ... as is the [Variables] section
+  if raw_cp.defaults():
+    items.extend(_list_section(cp, raw_cp.default_section))
   return items
 
 def _list_item_labels(cp):
@@ -79,7 +88,8 @@ def _list_plot_item_labels(cp):
   return outlist  
 
 def _item_value(cp, key):
-  section, section_key = key.split(":",1)
+  # Split at the last colon: section names may contain colons themselves ([Table-Form:NAME]), keys can't.
+  section, section_key = key.rsplit(":",1)
   v = cp.raw_config_parser[section][section_key]
   return v 
 
